@@ -211,6 +211,20 @@ def run_type_assignment_on_h5ad_cpu(
         precompute_path=precomputed_stats_path,
         for_marker_selection=False)
 
+    def _winnow(process_list):
+        try:
+            return winnow_process_list(process_list)
+        except Exception:
+            # a worker failed; do not leave its siblings running
+            # (they would keep writing results after the caller
+            # has cleaned up)
+            for sibling in process_list:
+                if sibling.is_alive():
+                    sibling.terminate()
+            for sibling in process_list:
+                sibling.join()
+            raise
+
     chunk_index = -1
     for chunk in chunk_iterator:
         chunk_index += 1
@@ -253,7 +267,7 @@ def run_type_assignment_on_h5ad_cpu(
         process_list.append(p)
         while len(process_list) >= n_processors:
             n0 = len(process_list)
-            process_list = winnow_process_list(process_list)
+            process_list = _winnow(process_list)
             n1 = len(process_list)
             if n1 < n0:
                 row_ct += (n0-n1)*chunk_size
@@ -264,7 +278,7 @@ def run_type_assignment_on_h5ad_cpu(
                     unit='hr')
 
     while len(process_list) > 0:
-        process_list = winnow_process_list(process_list)
+        process_list = _winnow(process_list)
 
     if buffer_dir is not None:
         path_list = [n for n in buffer_dir.iterdir()]
